@@ -35,6 +35,7 @@ PROPS["C17"] = dict(l1_ops=[], l1_algo=["decasteljau"], l2_algo="C17", box=True,
                     n_l1=(60, 600), n_l2=(10, 150))
 PROPS["C18"] = dict(l1_ops=[], l1_approx=True, l2_algo="C18", n_l1=(200, 4000), n_l2=(60, 1500))
 PROPS["C13"] = dict(l1_ops=[], l1_ctor=True, l2_algo="C13", n_l1=(1200, 20000), n_l2=(60, 1500))
+PROPS["C08"] = dict(l1_ops=[], custom="c08", n_l1=(0, 0), n_l2=(0, 0))
 PROPS["C07"] = dict(l1_ops=["hat", "vee", "generator", "innerWeights", "bracket", "inner", "sqwnorm", "wnorm"],
                     l2="C07", n_l1=(400, 6000), n_l2=(80, 2000))
 
@@ -146,6 +147,13 @@ def run_property(pid, thorough, seed, res):
                 l1_bad.append(dict(request=line, tags=tags, impl=a, model=b, why=why))
         if len(res.cov["samples"]) < 4 and reqs:
             res.cov["samples"].append(dict(kind="L1", request=reqs[0][0], impl=impl[0], model=model[0]))
+    custom_viol = []
+    if cfg.get("custom"):
+        cb, cv, cn = CUSTOM[cfg["custom"]](builds, r, thorough, res)
+        l1_bad += cb
+        custom_viol += cv
+        n_lines += cn
+        bit_equal += cn - len(cb)
     res.notes["l1"] = dict(requests=n_lines, bit_identical=bit_equal, disagreements=len(l1_bad))
 
     # 4 ---- L2 standing sweep (+ directed search when a link is broken)
@@ -171,7 +179,7 @@ def run_property(pid, thorough, seed, res):
     if cs:
         res.cov["samples"].append(dict(kind="L2", case={k: v for k, v in cs[0].items() if k != "prop"}))
     new = []
-    for v in viol:
+    for v in viol + custom_viol:
         k = check.match_known(v, known)
         if k:
             res.known_hits.setdefault("%s group=%s op=%s output=%s stratum=%s: %s" % (
@@ -204,6 +212,41 @@ def run_property(pid, thorough, seed, res):
                                                     by_op=collections.Counter(b["request"].split()[2] + "." + b["request"].split()[3] for b in l1_bad)))
             res.violation(rp, "correspondence broken at %s: %s" % (" ".join(l1_bad[0]["request"].split()[2:4]), l1_bad[0]["why"][:120]), no_input=True)
     return res.finish(LEVEL[pid], proof_cov(po))
+
+
+def custom_c08(builds, r, thorough, res):
+    """lock-step histories: random walks and adversarial repetition, both build configurations"""
+    import hist
+    from concurrent.futures import ThreadPoolExecutor
+    steps = 400000 if thorough else 6000
+    rep = 100000 if thorough else 2500
+    jobs = []
+    for dbg in (True, False):
+        for g in MODELLED:
+            if g in ("R1", "R2", "R5"):
+                continue
+            jobs.append((builds[dbg], dbg, g, steps, r.randrange(1 << 30), "random"))
+            jobs.append((builds[dbg], dbg, g, rep, r.randrange(1 << 30), "repeat"))
+    with ThreadPoolExecutor(max_workers=12) as ex:
+        outs = list(ex.map(lambda j: (j, hist.run_history(*j)), jobs))
+    bad, viol, n = [], [], 0
+    for (exe, dbg, g, st, seed, mode), o in outs:
+        n += o["steps"]
+        res.add_cells([("hist", g, dbg, mode, op) for op in o["ops"]])
+        res.notes.setdefault("histories", []).append(dict(group=g, assertions=dbg, mode=mode, steps=o["steps"],
+                                                          max_dev=o["max_dev"], renorm_inputs=o["renorm_inputs"], ops=dict(o["ops"])))
+        for b in o["l1_bad"]:
+            bad.append(dict(request=b["request"], tags=["history", mode, "step%d" % b["step"]], impl=b["impl"], model=b["model"], why=b["why"]))
+        for v in o["violations"]:
+            viol.append(dict(property="C08", group=g, op=v.get("op", "history"), output="validity",
+                             tags=["history", mode, "assert" if dbg else "ndebug", "seed%d" % seed, "step%d" % v["step"]],
+                             request=v["request"], what=v["what"], err=float("inf"), tol=gen.EPS))
+    if outs:
+        res.cov["samples"].append(dict(kind="history", group=outs[0][0][2], steps=outs[0][1]["steps"], ops=dict(outs[0][1]["ops"])))
+    return bad, viol, n
+
+
+CUSTOM = {"c08": custom_c08}
 
 
 def proof_cov(po):
